@@ -42,12 +42,13 @@ def gen_bwd_op(rng, table, inp, mode=None, cap=None, argmask=None, cursor=None):
     n = len(inp)
     mode = rng.choice(MODES_B) if mode is None else mode
     cap = caps_for(rng, n) if cap is None else cap
-    argmask = rng.choice([28, 28, 12, 0, 16, 4, 8, 31, 29, 30]) if argmask is None else argmask
+    argmask = rng.choice([28, 28, 12, 0, 16, 4, 8, 31, 31, 29, 30, 3]) if argmask is None else argmask
     if cursor is None:
         cursor = rng.randint(0, n - 1) if (n > 0 and (argmask & 16)) else -1
     curs = str(cursor) if (argmask & 16) else "-"
-    tf = "-"
-    sp = "-"
+    # back-translation: typeform and spacing are output arrays of outlen elements (the harness allocates exactly that)
+    tf = common.wide([0]) if (argmask & 1) else "-"
+    sp = common.hexbytes(b"*") if (argmask & 2) else "-"
     return "BWD %s %d %d %s %d %s %s %s" % (corpus.tpath(table), mode, cap, curs, argmask, common.wide(inp), tf, sp)
 
 
